@@ -162,7 +162,7 @@ def _warm():
 
 RULE = (
     '1-4 calls whose timeout equals or brackets (+-0.5/1 ms, +10 ms) the generated service time, optional Server.stream closed early with futures pending, then 1-4 probe calls; '
-    'thread servlet trees; schedules default/tape/PCT with bounded forced clock advances; second family adds line-granular preemption in _server.py. Oracle: abandoned call = TimeoutError at/after its deadline or its own '
+    'thread servlet trees, capacity 1/2/4/16; schedules default/tape/PCT (expiry races of timed waits are schedule choices) with bounded forced clock advances; second family adds line-granular preemption in _server.py. Oracle: abandoned call = TimeoutError at/after its deadline or its own '
     'reference result; probes answered with their reference result; gather thread alive; __exit__ returns, nothing left running. Non-trivial: >=1 call timed out or a stream was abandoned; distinct by (tree, requests, schedule prefix).'
 )
 
